@@ -122,7 +122,9 @@ macro_rules! terminal {
         }
     }};
 }
-fn build(stack: &str, term: &str, take: usize, lim: Option<NonZeroUsize>, sh: &Sh) -> PollFn {
+fn build(stack: &str, term: &str, takes: &[usize], lims: &[Option<NonZeroUsize>], sh: &Sh) -> PollFn {
+    let take = takes.first().copied().unwrap_or(0); let take2 = takes.get(1).copied().unwrap_or(0);
+    let lim = lims.first().copied().flatten(); let lim2 = lims.get(1).copied().flatten();
     let src = Src(Child::new(0, sh));
     if term == "rcol" {
         // collect into Result<Vec<_>, E>: the map closure of the stack is the fallible one
@@ -151,6 +153,11 @@ fn build(stack: &str, term: &str, take: usize, lim: Option<NonZeroUsize>, sh: &S
         "enum.take" => terminal!(term, src.co().enumerate().take(take), sh),
         "take.enum" => terminal!(term, src.co().take(take).enumerate(), sh),
         "lim.enum.map" => terminal!(term, src.co().limit(lim).enumerate().map(map_cl::<(usize, It)>(sh)), sh),
+        "take.take" => terminal!(term, src.co().take(take).take(take2), sh),
+        "take.map.take" => terminal!(term, src.co().take(take).map(map_cl::<It>(sh)).take(take2), sh),
+        "take.enum.take" => terminal!(term, src.co().take(take).enumerate().take(take2), sh),
+        "lim.lim" => terminal!(term, src.co().limit(lim).limit(lim2), sh),
+        "lim.map.lim" => terminal!(term, src.co().limit(lim).map(map_cl::<It>(sh)).limit(lim2), sh),
         s => panic!("stack {s}"),
     }
 }
@@ -160,13 +167,13 @@ fn run_case(line: &str) -> String {
     let (head, ops) = line.split_once(" | ").unwrap();
     let hp: Vec<&str> = head.split(' ').collect();
     let id = hp[0]; let spec: Vec<&str> = hp[1].split(':').collect();
-    let take: usize = hp[2].strip_prefix("take=").unwrap().parse().unwrap_or(0);
-    let lim: Option<NonZeroUsize> = hp[3].strip_prefix("lim=").unwrap().parse::<usize>().ok().and_then(NonZeroUsize::new);
+    let takes: Vec<usize> = hp[2].strip_prefix("take=").unwrap().split(',').filter_map(|x| x.parse().ok()).collect();
+    let lims: Vec<Option<NonZeroUsize>> = hp[3].strip_prefix("lim=").unwrap().split(',').filter_map(|x| x.parse::<usize>().ok()).map(NonZeroUsize::new).collect();
     let n: usize = hp[4].strip_prefix("n=").unwrap().parse().unwrap();
     let scripts: Vec<Vec<Step>> = hp.get(5).map(|s| s.split(';').map(|sc| if sc.is_empty() { vec![] } else { sc.split(',').map(parse_step).collect() }).collect()).unwrap_or_default();
     assert_eq!(scripts.len(), 1 + 2 * n, "script count in {line}");
     let sh: Sh = Rc::new(RefCell::new(Shared { wakers: vec![vec![]; 1 + 2 * n], parents: vec![], scripts, n }));
-    let mut comb: Option<PollFn> = Some(build(spec[1], spec[2], take, lim, &sh));
+    let mut comb: Option<PollFn> = Some(build(spec[1], spec[2], &takes, &lims, &sh));
     let mut finished = false;
     for op in ops.split(' ').filter(|s| !s.is_empty()) {
         match op.as_bytes()[0] {
